@@ -101,7 +101,11 @@ def compile_one(cc, src, flags, hdrhash, extra_key=''):
         return out, False
     os.makedirs(OBJ, exist_ok=True)
     tmp = out + '.tmp%d' % os.getpid()
-    cmd = [cc] + flags + ['-c', src, '-o', tmp]
+    fl = list(flags)
+    if src.endswith('.S'):   # a force-included C header is meaningless (and fatal) for assembly sources
+        while '-include' in fl:
+            i = fl.index('-include'); del fl[i:i + 2]
+    cmd = [cc] + fl + ['-c', src, '-o', tmp]
     r = subprocess.run(cmd, capture_output=True, text=True)
     if r.returncode != 0:
         sys.stderr.write('BUILD FAILED: %s\n%s\n' % (' '.join(map(shlex.quote, cmd)), r.stderr))
